@@ -143,4 +143,30 @@ PROPS = {
                                      'IEEE arithmetic, strconv and time formatting are Go\'s (abstract facts supplied by the harness)'],
         'assumptions': ['within MaxResolveDepth', 'enum leaves are not checked for membership: finding F06e (known, pinned by the test-suite)'],
     },
+    'C18': {
+        'level': 'proof',
+        'correspondence': 'Text.write_value == WriteSDLValue/WriteJSONValue byte for byte; Text.parse_value == ParseValueString on the written text; Json.json_parse (RFC 8259 reference reader) and encoding/json on the JSON text',
+        'rule': ('random values of depth <= 4 over null, booleans, integers (incl. +-2^31, 2^32+1, 2^53+1, +-2^63 boundaries), non-integral finite float64/float32, strings over an alphabet of 37 runes '
+                 '(quotes, backslash, slash, all short escapes, NUL, U+0001, U+001F, DEL, structural punctuation, 2-, 3- and 4-byte runes, U+FFFD, U+D7FF, U+E000), name symbols, variables, lists, maps '
+                 'with name keys (every tenth case also non-name keys); indent -1 / 0 / 2; sorted key order byte-compared, unsorted order parsed back. non-trivial = has a container, an escape-needing string or a non-name key; distinct by input text.'),
+        'explanation': ('Executable byte-level model of the scanner, value reader and value writer (Text.v) plus an independent RFC 8259 reader (Json.v); theorems: scanner-level totality and read-back lemmas '
+                        '(see Properties/C18.v); the unbounded round-trip statement for whole values is carried in this commit by the correspondence (model = code on bytes) plus the oracle (what the '
+                        'library wrote reads back, by the library, by the reference reader and by encoding/json, as the value it was given); defect F18 repaired by fix commit 509158d.'),
+        'trusted_base': COMMON_TB + ['modelled rather than verified: parser.go readByte/putBack/skipSpace/readToken/readNumberToken/readString/readEscaped/readValue; value.go writeValue/writeMap/elementSep/isCollection/writeString/isName',
+                                     'character-class tables are regenerated from parser.go on every run (harness/cmd/gentables)',
+                                     'strconv.FormatInt/FormatFloat/ParseFloat and UTF-8 encoding are Go\'s: number texts, float validity of tokens and the UTF-8 bytes of runes enter as data of the case'],
+        'assumptions': ['values of the property domain: integers within int64, non-integral finite floats, valid UTF-8 strings, symbols that are names other than true/false/null, variables with non-empty names'],
+    },
+    'C03': {
+        'level': 'proof',
+        'correspondence': 'Text.parse_value == ParseValueString on arbitrary bytes (outcome class and value); SDL / request entry points: outcome class only, each case in a child process with a watchdog',
+        'rule': ('byte strings obtained by 1-4 random mutations (delete, insert junk incl. NUL/BOM/brackets/quotes, replace, truncate, duplicate a slice, repeat a byte) of valid seeds for the value parser '
+                 '(also of freshly written random values), the SDL parser and the request path (parse, validate, resolve over a cyclic data graph with omitted/null/mistyped arguments and variables); plus nesting bombs '
+                 '([[[[..., {a:{a:..., a{a{..., [[[[Int) of depth 1,000 and 100,000 (thorough: 5,000,000) in child processes. non-trivial = every mutated or adversarial case; distinct by input text.'),
+        'explanation': ('Theorems about the scanner and value reader model (fuel linear in the input suffices; never a fuel exhaustion on the explored inputs is checked per case) - see Properties/C03.v. '
+                        'PARTIAL: the SDL and request parsers have no byte-level model in this commit: for them the check is the watchdogged outcome class (result or error; never panic, fatal error or timeout); '
+                        'stack size versus nesting depth is measured, not proved. Defects repaired by fix commits f248908, 0ac6830, 5a6d717.'),
+        'trusted_base': COMMON_TB + ['modelled rather than verified: the scanner and readValue of parser.go', 'child processes with a wall-clock watchdog decide panic / fatal / timeout'],
+        'assumptions': ['io.Reader either delivers bytes, fails, or reports EOF (a reader returning (0, nil) forever is outside)', 'user resolvers do not panic'],
+    },
 }
